@@ -243,6 +243,9 @@ def main():
     ap.add_argument('--json', default=os.path.join(HERE,
                                                    'mutation_campaign.json'))
     ap.add_argument('--maxchecks', type=int, default=4)
+    ap.add_argument('--skip', type=int, default=0,
+                    help='leave out the first N of the shuffled list (already '
+                         'done in an earlier run with the same seed)')
     args = ap.parse_args()
     files = [f for f in FILES if not args.files or f in args.files.split(',')]
     allm = []
@@ -253,7 +256,7 @@ def main():
         allm.extend(ms)
     rng = random.Random(args.seed)
     rng.shuffle(allm)
-    sample = allm[:args.sample]
+    sample = allm[args.skip:args.skip + args.sample]
     print('%d mutants generated, %d sampled' % (len(allm), len(sample)))
     sys.stdout.flush()
     base = '/dev/shm' if os.path.isdir('/dev/shm') else tempfile.gettempdir()
